@@ -12,10 +12,12 @@ import Midi.Driver.Msg
 import Midi.Driver.Ctors
 import Midi.Driver.Nums
 import Midi.Driver.Scan
+import Midi.Driver.Poll
 open Midi Midi.Driver
 
 structure St where
   scan : ScanSt := {}
+  poll : PollSt := {}
   lines : Nat := 0
   corr : Nat := 0
   spec : Nat := 0
@@ -95,7 +97,11 @@ def evalStateless (req : List String) : Option (Obs × Option Obs) :=
   | _ => none
 
 /-- stateful requests first (scanner tables), then the stateless ones -/
-def evalReq (sc : ScanSt) (req : List String) : Option (ScanSt × Obs × Option Obs) :=
+def evalReq (sc : ScanSt × PollSt) (req : List String) : Option ((ScanSt × PollSt) × Obs × Option Obs) :=
+  match req with
+  | "pp" :: rest => (evalPP sc.2 rest).map (fun (p, m, s) => ((sc.1, p), m, s))
+  | _ => (evalReqScan sc.1 req).map (fun (c, m, s) => ((c, sc.2), m, s))
+where evalReqScan (sc : ScanSt) (req : List String) : Option (ScanSt × Obs × Option Obs) :=
   match req with
   | "cc" :: rest => evalCC sc rest
   | "pn" :: rest => evalPN sc rest
@@ -119,9 +125,9 @@ def step (st : St) (line : String) : St × List String :=
   | [reqS, implS] =>
     let req := reqS.splitOn " " |>.filter (· ≠ "")
     let implWs := implS.splitOn " " |>.filter (· ≠ "")
-    match parseCells implWs, evalReq st.scan req with
-    | some impl, some (scan', model, spec?) =>
-      let st := { st with scan := scan' }
+    match parseCells implWs, evalReq (st.scan, st.poll) req with
+    | some impl, some ((scan', poll'), model, spec?) =>
+      let st := { st with scan := scan', poll := poll' }
       let out : List String := []
       let (st, out) :=
         if impl ≠ model then
